@@ -300,9 +300,12 @@ func (parser *Parser) getIncludes(srcFile *SourceFile, includes []*Include, incP
 					loc:        inc.Node.Loc,
 				})
 			} else if iSrcFile := processedIncludes[absPath]; iSrcFile != nil {
-				iSrcFile.IncludedFrom = append(iSrcFile.IncludedFrom, &inc.Node.Loc)
+				// Only record the inclusion if it does not close a cycle, so
+				// that the IncludedFrom graph stays acyclic.
 				if err := srcFile.checkIncludes(absPath, &inc.Node.Loc); err != nil {
 					errs = append(errs, err)
+				} else {
+					iSrcFile.IncludedFrom = append(iSrcFile.IncludedFrom, &inc.Node.Loc)
 				}
 			} else {
 				iSrcFile = &SourceFile{
